@@ -214,6 +214,10 @@ class Real:
                 f = ift.Field(d, AnyArray(a))
             elif how == 4:
                 f = ift.makeField(d[0], a)           # a bare Domain as domain description
+            elif how == 5:
+                f = ift.makeField(ift.MultiDomain.make({"k": d}), {"k": a})["k"]       # sugar.makeField -> MultiField.from_raw
+            elif how == 6:
+                f = ift.MultiField.from_raw(ift.MultiDomain.make({"k": d, "l": d}), {"k": a, "l": a.copy()})["k"]
             else:
                 f = ift.Field(d, a)
             W.append(f.val)
@@ -516,7 +520,7 @@ def gen_history(rng, length, p_unguarded=0.12):
                 cands = ok or cands
             a = rng.choice(cands)
             n = lenA(a) if rng.random() < 0.93 else lenA(a) + 1
-            op.update(a=a, n=n, how=ri(5))
+            op.update(a=a, n=n, how=ri(7))
         elif k == "fieldFromWrap":
             cands = list(range(len(W)))
             if not unguarded:
@@ -550,7 +554,7 @@ def gen_history(rng, length, p_unguarded=0.12):
 def attack_matrix():
     """every public constructor path x every write path into the new field (enumerated, not sampled)"""
     ctors = []
-    for how in range(5):
+    for how in range(7):
         ctors.append(("fromArr%d" % how, [{"op": "newArr", "vals": [0, 1, 2, 3]},
                                           {"op": "fieldFromArr", "a": 0, "n": 4, "how": how}]))
     for how in range(3):
